@@ -199,7 +199,7 @@ def execute(case, ctx):
             continue
         for v in site_values(prog, sid)[:2]:
             out["abstract"].append(f"{site['op']}|{site['place']}|{V.type_path(v, 2)}|{fmt_tag(fmt)}|{driver}")
-        if any(n[0] == "norepr" for v in site_values(prog, sid) for n in V.walk(v)):
+        if any(n[0] in ("norepr", "nbox") for v in site_values(prog, sid) for n in V.walk(v)):
             ctx.count("probe_hasrepr_site")
             if not any(isinstance(n, ast.Call) and isinstance(n.func, ast.Name) and n.func.id == "HasRepr" for n in ast.walk(call.node)):
                 out["violations"].append({"clause": "hasrepr", "sig": "norepr-not-recorded-through-HasRepr",
